@@ -1,17 +1,1352 @@
-(** Proofs for C14 (Reset / Remove / isolation) over CacheModel.v + MultiCache.v. *)
-From Gnmi Require Import Base.Prelude CTree.CTreeModel Path.PathModel Cache.CacheModel Cache.MultiCache.
+(** Proofs for C14 (Reset / Remove / isolation) over CacheModel.v + MultiCache.v.
+
+    Part 1: a generic invariant ("every stored notification satisfies P") and
+            its preservation by every entry point of the per-target model;
+    Part 2: the cache invariant (distinct names, every target owns what it
+            stores) for all histories;
+    Part 3: isolation;
+    Part 4: Remove;
+    Part 5: Reset. *)
+From Gnmi Require Import Base.Prelude CTree.CTreeModel CTree.CTreeProofs CTree.CTreeTheorems
+  Path.PathModel Cache.CacheModel Cache.MultiCache.
 Local Open Scope Z_scope.
 
-(** Cache.Remove makes the name unknown to HasTarget, whatever the cache held. *)
-Definition cache_wf (c : cache) : Prop := NoDup (keys (c_targets c)).
+(** robust against reshuffling of the model's case analyses *)
+Ltac break_match :=
+  match goal with
+  | |- context [match ?x with _ => _ end] =>
+      match type of x with
+      | sumbool _ _ => destruct x
+      | _ => destruct x eqn:?
+      end
+  end.
 
-Lemma remove_unknown_has c now name :
-  cache_wf c -> name <> "*"%string ->
-  cache_has_target (fst (cache_remove c now name)) name = false.
+(** * Part 1: stored notifications *)
+
+(** target named in the prefix of a notification *)
+Definition ntgt (v : notif) : string := gp_target (gp_of_opt (n_prefix v)).
+
+Definition tree_all (P : notif -> Prop) (tr : tree notif) : Prop :=
+  forall p v, lookup tr p = Some v -> P v.
+
+Definition tgood (P : notif -> Prop) (t : target) : Prop :=
+  wf_tree (t_tree t) /\ tree_all P (t_tree t).
+
+Lemma tree_all_add P (tr tr' : tree notif) p n :
+  wf_tree tr -> tree_all P tr -> P n -> CTreeModel.add tr p n = Some tr' ->
+  wf_tree tr' /\ tree_all P tr'.
 Proof.
-  intros Hwf Hs. unfold cache_has_target, cache_remove. cbn [fst c_targets].
-  destruct (String.eqb name "") eqn:E1; [reflexivity|].
-  destruct (String.eqb name "*") eqn:E2.
-  - apply String.eqb_eq in E2. contradiction.
-  - rewrite assoc_adel by exact Hwf. rewrite String.eqb_refl. reflexivity.
+  intros Hwf Hall Hn Ha. destruct (add_spec tr tr' p n Hwf Ha) as [Hwf' Hl].
+  split; [exact Hwf'|]. intros q v Hq. rewrite Hl in Hq.
+  destruct (path_eqb q p); [inversion Hq; subst; exact Hn|eauto].
 Qed.
+
+Lemma tree_all_set P (tr : tree notif) p n :
+  wf_tree tr -> tree_all P tr -> P n ->
+  wf_tree (tree_set tr p n) /\ tree_all P (tree_set tr p n).
+Proof.
+  intros Hwf Hall Hn. unfold tree_set.
+  destruct (CTreeModel.add tr p n) as [tr'|] eqn:Ha; [|auto].
+  eapply tree_all_add; eauto.
+Qed.
+
+Lemma tree_all_delete P (tr : tree notif) q c :
+  wf_tree tr -> tree_all P tr ->
+  wf_tree (fst (delete_cond tr q c)) /\ tree_all P (fst (delete_cond tr q c)) /\
+  Forall P (map snd (snd (delete_cond tr q c))).
+Proof.
+  intros Hwf Hall. destruct (delete_spec tr q c Hwf) as (Hwf' & Hl & Hr & _).
+  split; [exact Hwf'|]. split.
+  - intros s v Hs. rewrite Hl in Hs. unfold sel in Hs.
+    destruct (lookup tr s) as [w|] eqn:E; [|discriminate].
+    destruct (qmatch q s && c w); [discriminate|]. inversion Hs; subst. eauto.
+  - apply Forall_forall. intros v Hv. apply in_map_iff in Hv. destruct Hv as ([s w] & <- & Hin).
+    apply Hr in Hin. destruct Hin as (Hlk & _). cbn. eauto.
+Qed.
+
+(** ** field bookkeeping of the setters *)
+
+Lemma add_int_tree t k i : t_tree (add_int t k i) = t_tree t. Proof. reflexivity. Qed.
+Lemma add_int_name t k i : t_name (add_int t k i) = t_name t. Proof. reflexivity. Qed.
+Lemma add_int_cfg t k i : t_cfg (add_int t k i) = t_cfg t. Proof. reflexivity. Qed.
+Lemma lat_compute_tree t r ts : t_tree (lat_compute t r ts) = t_tree t.
+Proof. unfold lat_compute. destruct (t_sync t && r); reflexivity. Qed.
+Lemma lat_compute_name t r ts : t_name (lat_compute t r ts) = t_name t.
+Proof. unfold lat_compute. destruct (t_sync t && r); reflexivity. Qed.
+Lemma lat_compute_cfg t r ts : t_cfg (lat_compute t r ts) = t_cfg t.
+Proof. unfold lat_compute. destruct (t_sync t && r); reflexivity. Qed.
+
+Lemma tgood_add_int P t k i : tgood P t -> tgood P (add_int t k i).
+Proof. exact (fun H => H). Qed.
+
+Lemma tgood_lat P t r ts : tgood P t -> tgood P (lat_compute t r ts).
+Proof. unfold tgood. now rewrite lat_compute_tree. Qed.
+
+Lemma finish_ts_tree' n b t : t_tree (finish_ts n b t) = t_tree t.
+Proof.
+  unfold finish_ts. destruct (tracks_ts n && b); [|reflexivity].
+  unfold check_timestamp. destruct (t_ts t) as [z|]; [destruct (Z.ltb z (n_ts n))|]; reflexivity.
+Qed.
+Lemma finish_ts_name n b t : t_name (finish_ts n b t) = t_name t.
+Proof.
+  unfold finish_ts. destruct (tracks_ts n && b); [|reflexivity].
+  unfold check_timestamp. destruct (t_ts t) as [z|]; [destruct (Z.ltb z (n_ts n))|]; reflexivity.
+Qed.
+Lemma finish_ts_cfg' n b t : t_cfg (finish_ts n b t) = t_cfg t.
+Proof.
+  unfold finish_ts. destruct (tracks_ts n && b); [|reflexivity].
+  unfold check_timestamp. destruct (t_ts t) as [z|]; [destruct (Z.ltb z (n_ts n))|]; reflexivity.
+Qed.
+Lemma tgood_finish P n b t : tgood P t -> tgood P (finish_ts n b t).
+Proof. unfold tgood. now rewrite finish_ts_tree'. Qed.
+
+(** what every step keeps: name and configuration *)
+Definition same_id (t t' : target) : Prop := t_name t' = t_name t /\ t_cfg t' = t_cfg t.
+
+Lemma same_id_refl t : same_id t t. Proof. split; reflexivity. Qed.
+Lemma same_id_trans a b c : same_id a b -> same_id b c -> same_id a c.
+Proof. intros [H1 H2] [H3 H4]. split; congruence. Qed.
+
+(** ** gnmiUpdate *)
+
+Lemma meta_side_effect_keeps t k two u t1 r :
+  meta_side_effect t k two u = (t1, r) -> t_tree t1 = t_tree t /\ same_id t t1.
+Proof.
+  unfold meta_side_effect. repeat break_match; intros H; inversion H; subst;
+    (split; [reflexivity|split; reflexivity]).
+Qed.
+
+Lemma update_pre_keeps t p u t1 r :
+  update_pre t p u = (t1, r) -> t_tree t1 = t_tree t /\ same_id t t1.
+Proof.
+  unfold update_pre. repeat break_match; intros H;
+    try (inversion H; subst; split; [reflexivity|apply same_id_refl]);
+    eapply meta_side_effect_keeps; eauto.
+Qed.
+
+Ltac sid :=
+  first [ apply same_id_refl
+        | split; rewrite ?lat_compute_name, ?lat_compute_cfg; reflexivity ].
+
+Lemma update_leaf_good P t1 now p u n t2 r :
+  tgood P t1 -> P n -> update_leaf t1 now p u n = (t2, r) ->
+  tgood P t2 /\ same_id t1 t2 /\ (forall nd, r = Ok (Some nd) -> nd = n).
+Proof.
+  intros [Hwf Hall] Hn. unfold update_leaf.
+  repeat break_match; intros H; inversion H; subst;
+    (split; [|split; [sid|first [discriminate|intros nd E; inversion E; reflexivity]]]);
+    unfold tgood; rewrite ?lat_compute_tree; cbn [t_tree set_tree add_int set_meta];
+    first [ split; assumption
+          | apply tree_all_set; assumption
+          | eapply tree_all_add; eauto ].
+Qed.
+
+Lemma gnmi_update1_good P t now n t' r :
+  tgood P t -> P n -> gnmi_update1 t now n = (t', r) ->
+  tgood P t' /\ same_id t t' /\ (forall nd, r = Ok (Some nd) -> nd = n).
+Proof.
+  intros G Hn. unfold gnmi_update1.
+  destruct (n_upd n) as [|u ?].
+  { intros H; inversion H; subst. split; [exact G|]. split; [apply same_id_refl|discriminate]. }
+  destruct (unit_index n) as [p|e|w].
+  2:{ intros H; inversion H; subst. split; [exact G|]. split; [apply same_id_refl|discriminate]. }
+  2:{ intros H; inversion H; subst. split; [exact G|]. split; [apply same_id_refl|discriminate]. }
+  destruct (update_pre t p u) as [t1 r1] eqn:Hp.
+  destruct (update_pre_keeps _ _ _ _ _ Hp) as [Htr Hid].
+  assert (G1 : tgood P t1) by (unfold tgood; rewrite Htr; exact G).
+  destruct r1 as [[]|e|w].
+  - intros H. destruct (update_leaf_good P _ _ _ _ _ _ _ G1 Hn H) as (G2 & Hid2 & Hnd).
+    split; [exact G2|]. split; [eapply same_id_trans; eauto|exact Hnd].
+  - intros H; inversion H; subst. split; [exact G1|]. split; [exact Hid|discriminate].
+  - intros H; inversion H; subst. split; [exact G1|]. split; [exact Hid|discriminate].
+Qed.
+
+(** ** gnmiRemove *)
+
+Lemma gnmi_remove_good P t n t' r :
+  tgood P t -> gnmi_remove t n = (t', r) ->
+  tgood P t' /\ same_id t t' /\ (forall l, r = Ok l -> Forall P l).
+Proof.
+  intros G. unfold gnmi_remove.
+  destruct (n_del n) as [|d ?].
+  { intros H; inversion H; subst. split; [exact G|]. split; [apply same_id_refl|discriminate]. }
+  destruct (join_path (n_prefix n) (Some d)) as [p|e|w].
+  2,3: intros H; inversion H; subst; (split; [exact G|]); (split; [apply same_id_refl|discriminate]).
+  cbv zeta.
+  match goal with |- context [t_tree ?x] => set (t1 := x) end.
+  assert (Hpre : tgood P t1 /\ same_id t t1).
+  { subst t1. repeat break_match; split; try exact G; sid. }
+  clearbody t1. destruct Hpre as [[Hwf1 Hall1] Hid1].
+  destruct (tree_all_delete P (t_tree t1) p (fun v => Z.ltb (n_ts v) (n_ts n)) Hwf1 Hall1)
+    as (Hwf2 & Hall2 & Hrem).
+  destruct (map snd (snd (delete_cond (t_tree t1) p (fun v => Z.ltb (n_ts v) (n_ts n))))) as [|x lrem] eqn:E.
+  - intros H; inversion H; subst. split; [split; assumption|]. split; [exact Hid1|].
+    intros l1 E'; inversion E'; constructor.
+  - intros H; inversion H; subst. split; [split; assumption|]. split; [exact Hid1|].
+    intros l' E'; inversion E'; subst. exact Hrem.
+Qed.
+
+(** ** Target.GnmiUpdate *)
+
+Definition group_ok (P : notif -> Prop) (g : fgroup) : Prop :=
+  match g with
+  | FUpd nd => P nd
+  | FDel removed _ => Forall P removed
+  end.
+
+Definition acc_ok (P : notif -> Prop) (t : target) (a : acc) : Prop :=
+  tgood P (a_t a) /\ same_id t (a_t a) /\ Forall (group_ok P) (a_feed a).
+
+Lemma Forall_snoc {A} (Q : A -> Prop) l x : Forall Q l -> Q x -> Forall Q (l ++ [x]).
+Proof. intros H1 H2. apply Forall_app. split; [exact H1|constructor; [exact H2|constructor]]. Qed.
+
+Lemma multi_update_step_ok (P : notif -> Prop) t now n a u :
+  (forall m, n_prefix m = n_prefix n -> P m) ->
+  acc_ok P t a -> acc_ok P t (multi_update_step now n a u).
+Proof.
+  intros HP (G & Hid & Hf). unfold multi_update_step.
+  destruct (a_panic a); [split; [exact G|split; assumption]|].
+  destruct (gnmi_update1 (a_t a) now (clone_with_update n u)) as [t' r] eqn:E.
+  assert (Hc : P (clone_with_update n u)) by (apply HP; reflexivity).
+  destruct (gnmi_update1_good P _ _ _ _ _ G Hc E) as (G' & Hid' & Hnd).
+  assert (Hid2 : same_id t t') by (eapply same_id_trans; eauto).
+  destruct r as [[nd|]|e|w]; unfold acc_ok; cbn [a_t a_feed].
+  - split; [exact G'|]. split; [exact Hid2|]. apply Forall_snoc; [exact Hf|].
+    cbn. rewrite (Hnd nd eq_refl). exact Hc.
+  - auto.
+  - auto.
+  - auto.
+Qed.
+
+Lemma multi_delete_step_ok (P : notif -> Prop) t n a d :
+  acc_ok P t a -> acc_ok P t (multi_delete_step n a d).
+Proof.
+  intros (G & Hid & Hf). unfold multi_delete_step.
+  destruct (a_panic a); [split; [exact G|split; assumption]|]. cbv zeta.
+  destruct (gnmi_remove (add_int (a_t a) md_update_count 1) (clone_with_delete n d)) as [t' r] eqn:E.
+  destruct (gnmi_remove_good P _ _ _ _ (tgood_add_int P _ _ _ G) E) as (G' & Hid' & Hl).
+  assert (Hid2 : same_id t t') by (eapply same_id_trans; [exact Hid|exact Hid']).
+  destruct r as [removed|e|w]; unfold acc_ok; cbn [a_t a_feed]; auto.
+  split; [exact G'|]. split; [exact Hid2|]. apply Forall_snoc; [exact Hf|]. cbn. auto.
+Qed.
+
+Lemma fold_acc_ok {A} (P : notif -> Prop) t (f : acc -> A -> acc) (l : list A) :
+  (forall a x, acc_ok P t a -> acc_ok P t (f a x)) ->
+  forall a, acc_ok P t a -> acc_ok P t (fold_left f l a).
+Proof. intros Hf. induction l as [|x l IH]; cbn; auto. Qed.
+
+Lemma same_id_finish n b t t' : same_id t t' -> same_id t (finish_ts n b t').
+Proof. intros [H1 H2]. split; [rewrite finish_ts_name|rewrite finish_ts_cfg']; assumption. Qed.
+
+Lemma one_upd (P : notif -> Prop) t now n t1 r1 b :
+  tgood P t -> P n -> gnmi_update1 t now n = (t1, r1) ->
+  tgood P (finish_ts n b t1) /\ same_id t (finish_ts n b t1).
+Proof.
+  intros G Hn E. destruct (gnmi_update1_good P _ _ _ _ _ G Hn E) as (G1 & Hid & _).
+  split; [now apply tgood_finish|now apply same_id_finish].
+Qed.
+
+Lemma one_upd' (P : notif -> Prop) t now n t1 r1 b k i :
+  tgood P t -> P n -> gnmi_update1 t now n = (t1, r1) ->
+  tgood P (finish_ts n b (add_int t1 k i)) /\ same_id t (finish_ts n b (add_int t1 k i)).
+Proof.
+  intros G Hn E. destruct (gnmi_update1_good P _ _ _ _ _ G Hn E) as (G1 & Hid & _).
+  split; [apply tgood_finish; exact G1|apply same_id_finish; exact Hid].
+Qed.
+
+Lemma one_nd (P : notif -> Prop) t now n t1 nd :
+  tgood P t -> P n -> gnmi_update1 t now n = (t1, Ok (Some nd)) -> P nd.
+Proof.
+  intros G Hn E. destruct (gnmi_update1_good P _ _ _ _ _ G Hn E) as (_ & _ & H).
+  rewrite (H nd eq_refl). exact Hn.
+Qed.
+
+Lemma target_gnmi_update_good (P : notif -> Prop) t now n t' fd r :
+  tgood P t -> (forall m, n_prefix m = n_prefix n -> P m) ->
+  target_gnmi_update t now n = (t', fd, r) ->
+  tgood P t' /\ same_id t t' /\ Forall (group_ok P) fd.
+Proof.
+  intros G HP. assert (Hn : P n) by (apply HP; reflexivity).
+  pose proof (tgood_add_int P t md_update_count 1 G) as Ga.
+  unfold target_gnmi_update.
+  repeat break_match; intros H; inversion H; subst;
+    try (split; [exact G|split; [apply same_id_refl|constructor]]);
+    try (split; [apply tgood_add_int; exact G|split; [sid|constructor]]);
+    try match goal with
+      | E : gnmi_update1 t now n = (_, Ok (Some _)) |- _ =>
+          split; [exact (proj1 (one_upd' P _ _ _ _ _ _ _ _ G Hn E))
+                 |split; [exact (proj2 (one_upd' P _ _ _ _ _ _ _ _ G Hn E))|]];
+          constructor; [cbn; exact (one_nd P _ _ _ _ _ G Hn E)|constructor]
+      | E : gnmi_update1 t now n = _ |- _ =>
+          split; [exact (proj1 (one_upd P _ _ _ _ _ _ G Hn E))
+                 |split; [exact (proj2 (one_upd P _ _ _ _ _ _ G Hn E))|constructor]]
+      | E : gnmi_remove _ n = (_, Ok _) |- _ =>
+          destruct (gnmi_remove_good P _ _ _ _ Ga E) as (? & ? & Hl);
+          split; [assumption|split; [assumption|constructor; [cbn; apply Hl; reflexivity|constructor]]]
+      | E : gnmi_remove _ n = _ |- _ =>
+          destruct (gnmi_remove_good P _ _ _ _ Ga E) as (? & ? & Hl);
+          split; [assumption|split; [assumption|constructor]]
+      end;
+    try match goal with
+      | |- context [a_feed ?a2] =>
+          let Hacc := fresh "Hacc" in
+          assert (Hacc : acc_ok P t a2) by
+            (repeat first
+               [ apply fold_acc_ok;
+                   [intros; first [now apply multi_delete_step_ok | now apply multi_update_step_ok]|]
+               | apply multi_delete_step_ok
+               | apply multi_update_step_ok; [exact HP|]
+               | (split; [exact G|split; [apply same_id_refl|constructor]]) ]);
+          destruct Hacc as (G2 & Hid2 & Hf2);
+          split; [apply tgood_finish; exact G2|split; [apply same_id_finish; exact Hid2|exact Hf2]]
+      end.
+Qed.
+
+(** ** updateMeta / generateMetaUpdates / Reset *)
+
+Definition gstate := (target * list notif * option N)%type.
+
+Definition gst_ok (Q : target -> Prop) (P : notif -> Prop) (st : gstate) : Prop :=
+  Q (fst (fst st)) /\ Forall P (snd (fst st)).
+
+(** one iteration keeps an invariant [Q] of the target and [P] of the feed if
+    the one call of gnmiUpdate it may make does *)
+Lemma gen_meta_one_inv (Q : target -> Prop) (P : notif -> Prop) now k v same st :
+  (forall t val t' r,
+      Q t -> v = Some val -> meta_differs t k same = Ok true ->
+      gnmi_update1 t now (meta_noti (t_name t) now k val) = (t', r) ->
+      Q t' /\ (forall nd, r = Ok (Some nd) -> P nd)) ->
+  gst_ok Q P st -> gst_ok Q P (gen_meta_one now k v same st).
+Proof.
+  intros Hstep [HQ HP]. destruct st as [[t feed] po]. cbn [fst snd] in *.
+  unfold gen_meta_one. destruct po; [split; assumption|].
+  destruct (name_in k (cfg_excluded (t_cfg t))); [split; assumption|].
+  destruct v as [val|]; [|split; assumption].
+  destruct (meta_differs t k same) as [[|]|e|w] eqn:Hd; try (split; assumption).
+  destruct (gnmi_update1 t now (meta_noti (t_name t) now k val)) as [t' r] eqn:E.
+  destruct (Hstep t val t' r HQ eq_refl Hd E) as [HQ' Hnd].
+  destruct r as [[nd|]|e|w]; unfold gst_ok; cbn [fst snd]; auto.
+  split; [exact HQ'|]. apply Forall_snoc; auto.
+Qed.
+
+Lemma fold_gst_ok {A} (Q : target -> Prop) (P : notif -> Prop) (f : gstate -> A -> gstate) (l : list A) :
+  (forall st x, In x l -> gst_ok Q P st -> gst_ok Q P (f st x)) ->
+  forall st, gst_ok Q P st -> gst_ok Q P (fold_left f l st).
+Proof.
+  induction l as [|x l IH]; cbn; intros Hf st Hst; [exact Hst|].
+  apply IH; [intros; apply Hf; auto|apply Hf; auto].
+Qed.
+
+(** the invariant used for isolation: the target is good for "carries my
+    name" and keeps its name *)
+Definition owns (name : string) (v : notif) : Prop := ntgt v = name.
+
+Definition tinv (name : string) (t : target) : Prop :=
+  tgood (owns name) t /\ t_name t = name.
+
+Lemma owns_meta_noti name now k v : owns name (meta_noti name now k v).
+Proof. reflexivity. Qed.
+
+Lemma owns_delete_noti name o now p : owns name (delete_noti name o now p).
+Proof. reflexivity. Qed.
+
+Lemma tinv_step name t now n t' r :
+  tinv name t -> owns name n -> gnmi_update1 t now n = (t', r) ->
+  tinv name t' /\ (forall nd, r = Ok (Some nd) -> owns name nd).
+Proof.
+  intros [G Hnm] Hn E. destruct (gnmi_update1_good _ _ _ _ _ _ G Hn E) as (G' & [Hid _] & Hnd).
+  split; [split; [exact G'|congruence]|]. intros nd Er. rewrite (Hnd nd Er). exact Hn.
+Qed.
+
+Lemma generate_meta_updates_inv name t now :
+  tinv name t ->
+  gst_ok (tinv name) (owns name) (generate_meta_updates t now).
+Proof.
+  intros Hinv. unfold generate_meta_updates. cbv zeta.
+  assert (Hone : forall k v same st, gst_ok (tinv name) (owns name) st ->
+                   gst_ok (tinv name) (owns name) (gen_meta_one now k v same st)).
+  { intros k v same st Hst. apply gen_meta_one_inv; [|exact Hst].
+    intros t0 val t' r Hq _ _ E. eapply tinv_step; eauto.
+    destruct Hq as [_ Hnm]. rewrite Hnm. apply owns_meta_noti. }
+  repeat (apply fold_gst_ok; [intros; apply Hone; assumption|]).
+  split; [exact Hinv|constructor].
+Qed.
+
+Lemma update_meta_inv name t now :
+  tinv name t -> gst_ok (tinv name) (owns name) (update_meta t now).
+Proof. intros H. unfold update_meta. apply generate_meta_updates_inv. exact H. Qed.
+
+Lemma fold_delete_roots (P : notif -> Prop) roots : forall tr,
+  wf_tree tr -> tree_all P tr ->
+  wf_tree (fold_left (fun tr r => fst (CTreeModel.delete tr [r])) roots tr) /\
+  tree_all P (fold_left (fun tr r => fst (CTreeModel.delete tr [r])) roots tr).
+Proof.
+  induction roots as [|r roots IH]; cbn; intros tr Hwf Hall; [auto|].
+  destruct (tree_all_delete P tr [r] (fun _ => true) Hwf Hall) as (Hwf' & Hall' & _).
+  apply IH; assumption.
+Qed.
+
+Lemma target_reset_inv name t now :
+  tinv name t -> gst_ok (tinv name) (owns name) (target_reset t now).
+Proof.
+  intros Hinv. unfold target_reset. cbv zeta.
+  set (t1 := set_meta (set_ts t None) (md_clear (t_meta t))).
+  assert (H1 : tinv name t1) by exact Hinv.
+  pose proof (update_meta_inv name t1 now H1) as Hu.
+  destruct (update_meta t1 now) as [[t2 feed] po]. destruct Hu as [[[Hwf Hall] Hnm] Hf].
+  cbn [fst snd] in *. destruct po; [split; [split; [split|]|]; assumption|].
+  unfold gst_ok; cbn [fst snd]. split.
+  - split; [|exact Hnm]. unfold tgood. cbn [t_tree set_tree]. now apply fold_delete_roots.
+  - apply Forall_app. split; [exact Hf|]. apply Forall_forall. intros x Hx.
+    apply in_map_iff in Hx. destruct Hx as (r & <- & _). rewrite Hnm. apply owns_delete_noti.
+Qed.
+
+(** * Part 2: the cache invariant *)
+
+Definition cinv (c : cache) : Prop :=
+  NoDup (keys (c_targets c)) /\
+  forall name t, assoc name (c_targets c) = Some t -> tinv name t.
+
+Lemma cinv_set_target c name t : cinv c -> tinv name t -> cinv (set_target c name t).
+Proof.
+  intros [Hnd Hall] Ht. split; cbn [c_targets set_target].
+  - now apply NoDup_keys_aset.
+  - intros k x. rewrite assoc_aset. destruct (String.eqb_spec k name) as [->|Hne].
+    + intros E; inversion E; subst; exact Ht.
+    + apply Hall.
+Qed.
+
+Lemma set_target_other c name t k :
+  k <> name -> assoc k (c_targets (set_target c name t)) = assoc k (c_targets c).
+Proof.
+  intros Hne. cbn [c_targets set_target]. rewrite assoc_aset.
+  destruct (String.eqb_spec k name); [contradiction|reflexivity].
+Qed.
+
+Lemma tinv_new name cfg : tinv name (new_target name cfg).
+Proof.
+  split; [|reflexivity]. split; [exact I|]. intros p v H. discriminate.
+Qed.
+
+Lemma cinv_add c name : cinv c -> cinv (cache_add c name).
+Proof. intros H. apply (cinv_set_target c name _ H). apply tinv_new. Qed.
+
+Lemma cinv_new cfg names : cinv (new_cache cfg names).
+Proof.
+  unfold new_cache.
+  assert (H : forall l, cinv (Cache cfg l) ->
+            cinv (Cache cfg (fold_left (fun m k => aset k (new_target k cfg) m) names l))).
+  { induction names as [|k names IH]; cbn; intros l Hl; [exact Hl|].
+    apply IH. exact (cinv_set_target (Cache cfg l) k _ Hl (tinv_new k cfg)). }
+  apply H. split; [constructor|]. intros name t E. discriminate.
+Qed.
+
+Lemma cinv_remove c now name : cinv c -> cinv (fst (cache_remove c now name)).
+Proof.
+  intros [Hnd Hall]. split; cbn [fst cache_remove c_targets].
+  - now apply NoDup_keys_adel.
+  - intros k x. rewrite assoc_adel by exact Hnd. destruct (String.eqb k name); [discriminate|apply Hall].
+Qed.
+
+Lemma assoc_map_snd {A B} (f : string * A -> B) k l :
+  assoc k (map (fun kt => (fst kt, f kt)) l) =
+  match assoc k l with Some a => Some (f (k, a)) | None => None end.
+Proof.
+  induction l as [|[k0 a0] l IH]; cbn; [reflexivity|].
+  destruct (String.eqb_spec k k0) as [->|Hne]; [reflexivity|exact IH].
+Qed.
+
+Lemma keys_map_snd {A B} (f : string * A -> B) (l : list (string * A)) :
+  keys (map (fun kt => (fst kt, f kt)) l) = keys l.
+Proof. induction l as [|[k0 a0] l IH]; cbn; [reflexivity|now rewrite IH]. Qed.
+
+Lemma cinv_update_size c sizes : cinv c -> cinv (cache_update_size c sizes).
+Proof.
+  intros [Hnd Hall]. unfold cache_update_size. split; cbn [c_targets].
+  - rewrite (keys_map_snd (fun kt => target_update_size (snd kt)
+              (match assoc (fst kt) sizes with Some z => z | None => 0 end))). exact Hnd.
+  - intros k x.
+    rewrite (assoc_map_snd (fun kt => target_update_size (snd kt)
+              (match assoc (fst kt) sizes with Some z => z | None => 0 end))).
+    destruct (assoc k (c_targets c)) as [t|] eqn:E; [|discriminate].
+    intros E'; inversion E'; subst. exact (Hall k t E).
+Qed.
+
+(** rendering of delete groups keeps the owner *)
+Lemma render_deletes_owns name removed ts :
+  Forall (owns name) removed -> Forall (owns name) (render_deletes removed ts).
+Proof.
+  induction removed as [|d rest IH]; cbn [render_deletes]; intros H; [constructor|].
+  inversion H as [|? ? Hd Hrest]; subst. constructor; [|auto].
+  assert (Hmk : forall p, owns name (mk_delete d ts p)).
+  { intros p. unfold owns, ntgt, mk_delete. cbn. exact Hd. }
+  destruct (if defect_c03_1_alias then alias_write d else None) as [[id sfx]|]; apply Hmk.
+Qed.
+
+Lemma render_feed_owns name gs :
+  Forall (group_ok (owns name)) gs -> Forall (owns name) (render_feed gs).
+Proof.
+  unfold render_feed. induction gs as [|g gs IH]; cbn; intros H; [constructor|].
+  inversion H as [|? ? Hg Hgs]; subst. apply Forall_app. split; [|auto].
+  destruct g as [nd|removed ts]; cbn in *; [constructor; [exact Hg|constructor]|].
+  now apply render_deletes_owns.
+Qed.
+
+(** ** one target-level call inside the cache *)
+
+Lemma on_target_inv name t now n t' fd r :
+  tinv name t -> ntgt n = name ->
+  target_gnmi_update t now n = (t', fd, r) ->
+  tinv name t' /\ Forall (group_ok (owns name)) fd.
+Proof.
+  intros [G Hnm] Hn E.
+  destruct (target_gnmi_update_good (owns name) t now n t' fd r G) as (G' & [Hid _] & Hf); auto.
+  - intros m Hm. unfold owns, ntgt. rewrite Hm. exact Hn.
+  - split; [split; [exact G'|congruence]|exact Hf].
+Qed.
+
+(** what a call addressed to [t] does to the cache: nothing outside [t], the
+    invariant is kept, and the announcements carry [t] *)
+Definition local_step (t : string) (c c' : cache) (feed : list notif) : Prop :=
+  (forall k, k <> t -> assoc k (c_targets c') = assoc k (c_targets c)) /\
+  (cinv c -> cinv c' /\ Forall (owns t) feed).
+
+Lemma local_refl t c : local_step t c c [].
+Proof. split; [reflexivity|intros H; split; [exact H|constructor]]. Qed.
+
+Lemma cache_gnmi_update_local c now n pr c' gs r :
+  n_prefix n = Some pr -> cache_gnmi_update c now n = (c', gs, r) ->
+  local_step (gp_target pr) c c' (render_feed gs).
+Proof.
+  intros Hpr. unfold cache_gnmi_update. rewrite Hpr.
+  destruct (assoc (gp_target pr) (c_targets c)) as [t|] eqn:Ea.
+  2:{ intros H; inversion H; subst. apply local_refl. }
+  destruct (target_gnmi_update t now n) as [[t' fd] r'] eqn:E.
+  intros H; inversion H; subst. split.
+  - intros k Hk. now apply set_target_other.
+  - intros Hc. destruct Hc as [Hnd Hall].
+    destruct (on_target_inv (gp_target pr) t now n t' gs r (Hall _ _ Ea)) as [Hi Hf]; auto.
+    { unfold ntgt. rewrite Hpr. reflexivity. }
+    split; [apply cinv_set_target; [split; assumption|exact Hi]|now apply render_feed_owns].
+Qed.
+
+Lemma cache_on_target_local c name f c' gs r :
+  (forall t t' fd r', tinv name t -> f t = (t', fd, r') ->
+                      tinv name t' /\ Forall (group_ok (owns name)) fd) ->
+  cache_on_target c name f = (c', gs, r) ->
+  local_step name c c' (render_feed gs).
+Proof.
+  intros Hf. unfold cache_on_target.
+  destruct (assoc name (c_targets c)) as [t|] eqn:Ea.
+  2:{ intros H; inversion H; subst. apply local_refl. }
+  destruct (f t) as [[t' fd] r'] eqn:E.
+  intros H; inversion H; subst. split.
+  - intros k Hk. now apply set_target_other.
+  - intros [Hnd Hall]. destruct (Hf t t' gs r (Hall _ _ Ea) E) as [Hi Hg].
+    split; [apply cinv_set_target; [split; assumption|exact Hi]|now apply render_feed_owns].
+Qed.
+
+Lemma cache_reset_local c now name c' l p :
+  cache_reset c now name = (c', l, p) -> local_step name c c' l.
+Proof.
+  unfold cache_reset. destruct (assoc name (c_targets c)) as [t|] eqn:Ea.
+  2:{ intros H; inversion H; subst. apply local_refl. }
+  destruct (target_reset t now) as [[t' feed] p'] eqn:E.
+  intros H; inversion H; subst. split.
+  - intros k Hk. now apply set_target_other.
+  - intros [Hnd Hall]. pose proof (target_reset_inv name t now (Hall _ _ Ea)) as Hr.
+    rewrite E in Hr. destruct Hr as [Hi Hf]. cbn [fst snd] in *.
+    split; [apply cinv_set_target; [split; assumption|exact Hi]|exact Hf].
+Qed.
+
+Lemma cache_remove_local c now name :
+  NoDup (keys (c_targets c)) ->
+  local_step name c (fst (cache_remove c now name)) (snd (cache_remove c now name)).
+Proof.
+  intros Hnd. split.
+  - intros k Hk. cbn [fst cache_remove c_targets]. rewrite assoc_adel by exact Hnd.
+    destruct (String.eqb_spec k name); [contradiction|reflexivity].
+  - intros Hc. split; [now apply cinv_remove|]. cbn [snd cache_remove].
+    constructor; [apply owns_delete_noti|constructor].
+Qed.
+
+(** the step of every operation addressed to one target is local *)
+Theorem cstep_local c o t c' r f :
+  NoDup (keys (c_targets c)) ->
+  op_addr o = AOne t -> cstep c o = (c', r, f) -> local_step t c c' (mfeed_list f).
+Proof.
+  intros Hnd Ha. destruct o; cbn [op_addr] in Ha; try discriminate; cbn [cstep].
+  - (* MUpd *)
+    destruct (n_prefix n) as [pr|] eqn:Hpr; [|discriminate]. inversion Ha; subst.
+    destruct (cache_gnmi_update c now n) as [[c1 gs] r1] eqn:E.
+    intros H; inversion H; subst. cbn [mfeed_list]. eapply cache_gnmi_update_local; eauto.
+  - (* MReset *)
+    inversion Ha; subst. destruct (cache_reset c now t) as [[c1 l] p] eqn:E.
+    intros H; inversion H; subst. cbn [mfeed_list]. eapply cache_reset_local; eauto.
+  - (* MRemove *)
+    inversion Ha; subst. pose proof (cache_remove_local c now t Hnd) as Hl.
+    destruct (cache_remove c now t) as [c1 l]. intros H; inversion H; subst. exact Hl.
+  - (* MAdd *)
+    inversion Ha; subst. intros H; inversion H; subst. cbn [mfeed_list]. split.
+    + intros k Hk. now apply set_target_other.
+    + intros Hc. split; [now apply cinv_add|constructor].
+  - (* MSync *)
+    inversion Ha; subst. destruct (cache_sync c now t) as [[c1 gs] r1] eqn:E.
+    intros H; inversion H; subst. cbn [mfeed_list]. unfold cache_sync in E.
+    eapply cache_on_target_local; [|exact E].
+    intros t0 t' fd r' Hi Ef. cbv beta in Ef. eapply on_target_inv; [exact Hi| |exact Ef]. reflexivity.
+  - (* MConnect *)
+    inversion Ha; subst. destruct (cache_connect c now t) as [[c1 gs] r1] eqn:E.
+    intros H; inversion H; subst. cbn [mfeed_list]. unfold cache_connect in E.
+    eapply cache_on_target_local; [|exact E].
+    intros t0 t' fd r' Hi. cbv beta.
+    destruct (target_gnmi_update t0 now (meta_noti t now md_connected (TBool true))) as [[t1 f1] r1'] eqn:E1.
+    destruct (on_target_inv t t0 now (meta_noti t now md_connected (TBool true)) t1 f1 r1' Hi eq_refl E1) as [Hi1 Hf1].
+    destruct (target_gnmi_update t1 now (delete_noti t "" now [md_root; md_connect_error])) as [[t2 f2] r2] eqn:E2.
+    destruct (on_target_inv t t1 now (delete_noti t "" now [md_root; md_connect_error]) t2 f2 r2 Hi1 eq_refl E2) as [Hi2 Hf2].
+    destruct r1'; intros Ef; inversion Ef; subst; try (split; [assumption|apply Forall_app; split; assumption]).
+    split; assumption.
+  - (* MConnectError *)
+    inversion Ha; subst. destruct (cache_connect_error c now t msg) as [[c1 gs] r1] eqn:E.
+    intros H; inversion H; subst. cbn [mfeed_list]. unfold cache_connect_error in E.
+    eapply cache_on_target_local; [|exact E].
+    intros t0 t' fd r' Hi Ef. cbv beta in Ef. eapply on_target_inv; [exact Hi| |exact Ef]. reflexivity.
+Qed.
+
+(** ** every step keeps the invariant *)
+
+Lemma cache_update_metadata_cinv c now :
+  cinv c -> cinv (fst (fst (cache_update_metadata c now))).
+Proof.
+  unfold cache_update_metadata. generalize (c_targets c). intros l.
+  assert (H : forall st : cache * list notif * option N,
+            cinv (fst (fst st)) ->
+            cinv (fst (fst (fold_left (fun st kt =>
+              match st with
+              | (c', feed, Some w) => st
+              | (c', feed, None) =>
+                  match assoc (fst kt) (c_targets c') with
+                  | None => st
+                  | Some t => let '(t', f, p) := update_meta t now in
+                              (set_target c' (fst kt) t', feed ++ f, p)
+                  end
+              end) l st)))).
+  { induction l as [|kt l IH]; cbn [fold_left]; intros st Hst; [exact Hst|].
+    apply IH. destruct st as [[c' feed] [w|]]; [exact Hst|]. cbn [fst] in Hst.
+    destruct (assoc (fst kt) (c_targets c')) as [t|] eqn:Ea; [|exact Hst].
+    pose proof (update_meta_inv (fst kt) t now (proj2 Hst _ _ Ea)) as Hu.
+    destruct (update_meta t now) as [[t' f] p]. destruct Hu as [Hi _]. cbn [fst] in *.
+    now apply cinv_set_target. }
+  intros Hc. apply H. exact Hc.
+Qed.
+
+Theorem cstep_cinv c o : cinv c -> cinv (fst (fst (cstep c o))).
+Proof.
+  intros Hc. destruct (op_addr o) as [t| |] eqn:Ha.
+  - destruct (cstep c o) as [[c' r] f] eqn:E.
+    destruct (cstep_local c o t c' r f (proj1 Hc) Ha E) as [_ H]. exact (proj1 (H Hc)).
+  - destruct o; cbn [op_addr] in Ha; try discriminate; cbn [cstep].
+    + destruct (n_prefix n); discriminate.
+    + pose proof (cache_update_metadata_cinv c now Hc) as H.
+      destruct (cache_update_metadata c now) as [[c1 l] p]. exact H.
+    + cbn [fst]. now apply cinv_update_size.
+  - destruct o; cbn [op_addr] in Ha; try discriminate; cbn [cstep].
+    + destruct (n_prefix n) as [pr|] eqn:Hp; [discriminate|].
+      unfold cache_gnmi_update. rewrite Hp. exact Hc.
+    + exact Hc.
+Qed.
+
+Lemma mstep_cache s o :
+  ms_cache (fst (fst (fst (mstep s o)))) = fst (fst (cstep (ms_cache s) o)).
+Proof.
+  unfold mstep. destruct (cstep (ms_cache s) o) as [[c' r] f]. cbn [fst].
+  destruct o; try reflexivity.
+  destruct (sub_attach c' tgt) as [sb out]. reflexivity.
+Qed.
+
+Theorem mrun_cinv ops : forall s, cinv (ms_cache s) -> cinv (ms_cache (mrun s ops)).
+Proof.
+  unfold mrun. induction ops as [|o ops IH]; cbn [fold_left]; intros s Hs; [exact Hs|].
+  apply IH. rewrite mstep_cache. now apply cstep_cinv.
+Qed.
+
+(** the invariant holds in every reachable state *)
+Theorem reachable_cinv cfg names ops : cinv (ms_cache (mrun (minit cfg names) ops)).
+Proof. apply mrun_cinv. apply cinv_new. Qed.
+
+(** * Part 3: isolation *)
+
+Lemma model_tobs_ext c c' k :
+  assoc k (c_targets c') = assoc k (c_targets c) -> model_tobs c' k = model_tobs c k.
+Proof.
+  intros H. unfold model_tobs, cache_has_target, target_dump, target_meta. now rewrite H.
+Qed.
+
+(** one call addressed to [t]: every other name keeps its whole target record
+    (tree, metadata, latest timestamp, sync flag), hence HasTarget, Query and
+    Metadata answer the same for it, and every announced entry carries [t] *)
+Theorem isolation_step c o t t' c' r f :
+  cinv c -> op_addr o = AOne t -> t' <> t -> cstep c o = (c', r, f) ->
+  assoc t' (c_targets c') = assoc t' (c_targets c) /\
+  model_tobs c' t' = model_tobs c t' /\
+  Forall (fun n => ntgt n = t) (mfeed_list f).
+Proof.
+  intros Hc Ha Hne E. destruct (cstep_local c o t c' r f (proj1 Hc) Ha E) as [Hfr Hinv].
+  split; [now apply Hfr|]. split; [apply model_tobs_ext; now apply Hfr|exact (proj2 (Hinv Hc))].
+Qed.
+
+(** a call addressed to nobody (no prefix, or attaching a subscriber) changes
+    nothing and announces nothing *)
+Theorem isolation_none c o c' r f :
+  op_addr o = ANone -> cstep c o = (c', r, f) -> c' = c /\ mfeed_list f = [].
+Proof.
+  intros Ha. destruct o; cbn [op_addr] in Ha; try discriminate; cbn [cstep].
+  - destruct (n_prefix n) as [pr|] eqn:Hp; [discriminate|].
+    unfold cache_gnmi_update. rewrite Hp. intros H; inversion H; subst. split; reflexivity.
+  - intros H; inversion H; subst. split; reflexivity.
+Qed.
+
+(** all announcements of a run *)
+Fixpoint run_feed (c : cache) (ops : list mop) : list notif :=
+  match ops with
+  | [] => []
+  | o :: ops' => mfeed_list (snd (cstep c o)) ++ run_feed (fst (fst (cstep c o))) ops'
+  end.
+
+Definition crun (c : cache) (ops : list mop) : cache :=
+  fold_left (fun c o => fst (fst (cstep c o))) ops c.
+
+Lemma mrun_crun ops : forall s, ms_cache (mrun s ops) = crun (ms_cache s) ops.
+Proof.
+  unfold mrun, crun. induction ops as [|o ops IH]; cbn [fold_left]; intros s; [reflexivity|].
+  rewrite IH. now rewrite mstep_cache.
+Qed.
+
+(** [o] is not addressed to [t'] (and not to every target) *)
+Definition spares (t' : string) (o : mop) : Prop :=
+  match op_addr o with
+  | AOne t => t <> t'
+  | ANone => True
+  | AAll => False
+  end.
+
+(** for every history whose calls are addressed to other targets: [t'] is
+    untouched and nothing announced carries it *)
+Theorem isolation_history t' ops : forall c,
+  cinv c -> Forall (spares t') ops ->
+  assoc t' (c_targets (crun c ops)) = assoc t' (c_targets c) /\
+  model_tobs (crun c ops) t' = model_tobs c t' /\
+  Forall (fun n => ntgt n <> t') (run_feed c ops).
+Proof.
+  induction ops as [|o ops IH]; intros c Hc Hall.
+  - cbn. split; [reflexivity|]. split; [reflexivity|constructor].
+  - inversion Hall as [|? ? Ho Hrest]; subst.
+    destruct (cstep c o) as [[c1 r] f] eqn:E.
+    assert (H1 : assoc t' (c_targets c1) = assoc t' (c_targets c) /\
+                 Forall (fun n => ntgt n <> t') (mfeed_list f)).
+    { unfold spares in Ho. destruct (op_addr o) as [t| |] eqn:Ha; [| contradiction |].
+      - destruct (isolation_step c o t t' c1 r f Hc Ha (fun e => Ho (eq_sym e)) E) as (H1 & _ & H3).
+        split; [exact H1|]. eapply Forall_impl; [|exact H3]. cbn. intros n Hn. congruence.
+      - destruct (isolation_none c o c1 r f Ha E) as [-> Hf]. rewrite Hf. split; [reflexivity|constructor]. }
+    destruct H1 as [H1 H2].
+    assert (Hc1 : cinv c1) by (pose proof (cstep_cinv c o Hc) as H; rewrite E in H; exact H).
+    destruct (IH c1 Hc1 Hrest) as (I1 & I2 & I3).
+    cbn [crun fold_left run_feed]. rewrite E. cbn [fst snd]. fold (crun c1 ops).
+    split; [congruence|]. split.
+    + rewrite I2. now apply model_tobs_ext.
+    + apply Forall_app. split; assumption.
+Qed.
+
+(** * Part 4: Remove *)
+
+Lemma is_target_delete_noti name now :
+  is_target_delete (delete_noti name "" now ["*"]) = true.
+Proof. reflexivity. Qed.
+
+(** after Remove the name is unknown to HasTarget, Query and Metadata, and
+    GnmiUpdate to it is an error that changes and announces nothing; exactly
+    one entry is announced and it is the whole-target delete of that name *)
+Theorem remove_forgets c now name :
+  cinv c -> name <> "*"%string ->
+  let c' := fst (cache_remove c now name) in
+  cache_has_target c' name = false /\
+  target_dump c' name = None /\
+  target_meta c' name = None /\
+  (forall now' n pr, n_prefix n = Some pr -> gp_target pr = name ->
+     cache_gnmi_update c' now' n = (c', [], GErr err_no_target)) /\
+  snd (cache_remove c now name) = [delete_noti name "" now ["*"]] /\
+  is_target_delete (delete_noti name "" now ["*"]) = true /\
+  ntgt (delete_noti name "" now ["*"]) = name.
+Proof.
+  intros [Hnd _] Hs c'.
+  assert (Ha : assoc name (c_targets c') = None).
+  { subst c'. cbn [fst cache_remove c_targets]. rewrite assoc_adel by exact Hnd.
+    now rewrite String.eqb_refl. }
+  split.
+  { unfold cache_has_target. rewrite Ha.
+    destruct (String.eqb name ""); [reflexivity|].
+    destruct (String.eqb_spec name "*"); [contradiction|reflexivity]. }
+  split; [unfold target_dump; now rewrite Ha|].
+  split; [unfold target_meta; now rewrite Ha|].
+  split.
+  { intros now' n pr Hp Ht. unfold cache_gnmi_update. rewrite Hp, Ht, Ha. reflexivity. }
+  split; [reflexivity|]. split; reflexivity.
+Qed.
+
+(** the announced whole-target delete ends a running single-target stream of
+    that name with status OK right after forwarding it; a stream on "*" forwards
+    it and keeps running; an ended stream never receives anything again *)
+Theorem remove_ends_stream name now :
+  name <> "*"%string -> name <> ""%string ->
+  sub_step [delete_noti name "" now ["*"]] (Sub name SRunning) =
+    (Sub name SEndedOk, [SUpd (delete_noti name "" now ["*"])]) /\
+  sub_step [delete_noti name "" now ["*"]] (Sub "*" SRunning) =
+    (Sub "*" SRunning, [SUpd (delete_noti name "" now ["*"])]).
+Proof.
+  intros Hs Hne. unfold sub_step, stream_feed, offered. cbn [sub_stat sub_target].
+  rewrite is_target_delete_noti. split.
+  - destruct (String.eqb_spec name "*") as [|_]; [contradiction|]. cbn [negb andb orb].
+    assert (Hh : feed_head (delete_noti name "" now ["*"]) = Some name).
+    { unfold feed_head, delete_noti. cbn. unfold nonempty.
+      destruct (String.eqb_spec name ""); [contradiction|reflexivity]. }
+    rewrite Hh. rewrite String.eqb_refl. reflexivity.
+  - cbn. reflexivity.
+Qed.
+
+Theorem ended_stream_silent feed T st :
+  st <> SRunning -> sub_step feed (Sub T st) = (Sub T st, []).
+Proof. intros H. unfold sub_step. cbn [sub_stat]. destruct st; try reflexivity. contradiction. Qed.
+
+(** a stream on "*" is never ended by an announcement *)
+Theorem star_stream_never_ends feed :
+  fst (sub_step feed (Sub "*" SRunning)) = Sub "*" SRunning.
+Proof.
+  unfold sub_step. cbn [sub_stat sub_target].
+  assert (H : forall l, snd (stream_feed "*" l) = false).
+  { induction l as [|n l IH]; cbn; [reflexivity|].
+    destruct (stream_feed "*" l) as [out e]. cbn in *. exact IH. }
+  specialize (H feed). destruct (stream_feed "*" feed) as [out e]. cbn in *. now rewrite H.
+Qed.
+
+(** * Part 5: Reset *)
+
+(** ** frame: gnmiUpdate touches the tree at its own index path only *)
+
+Lemma add_frame (tr tr' : tree notif) p n q :
+  wf_tree tr -> CTreeModel.add tr p n = Some tr' -> q <> p -> lookup tr' q = lookup tr q.
+Proof.
+  intros Hwf Ha Hne. destruct (add_spec tr tr' p n Hwf Ha) as [_ Hl]. rewrite Hl.
+  destruct (path_eqb_spec q p); [contradiction|reflexivity].
+Qed.
+
+Lemma tree_set_frame (tr : tree notif) p n q :
+  wf_tree tr -> q <> p -> lookup (tree_set tr p n) q = lookup tr q.
+Proof.
+  intros Hwf Hne. unfold tree_set. destruct (CTreeModel.add tr p n) as [tr'|] eqn:Ha; [|reflexivity].
+  eapply add_frame; eauto.
+Qed.
+
+Lemma update_leaf_frame t1 now p u n t2 r q :
+  wf_tree (t_tree t1) -> update_leaf t1 now p u n = (t2, r) -> q <> p ->
+  lookup (t_tree t2) q = lookup (t_tree t1) q.
+Proof.
+  intros Hwf. unfold update_leaf.
+  repeat break_match; intros H Hne; inversion H; subst;
+    rewrite ?lat_compute_tree; cbn [t_tree set_tree add_int set_meta];
+    first [ reflexivity | now apply tree_set_frame | eapply add_frame; eauto ].
+Qed.
+
+Lemma gnmi_update1_frame t now n t' r p q :
+  wf_tree (t_tree t) -> gnmi_update1 t now n = (t', r) -> unit_index n = Ok p -> q <> p ->
+  lookup (t_tree t') q = lookup (t_tree t) q.
+Proof.
+  intros Hwf. unfold gnmi_update1. destruct (n_upd n) as [|u ?].
+  { intros H; inversion H; reflexivity. }
+  intros H Hp Hne. rewrite Hp in H.
+  destruct (update_pre t p u) as [t1 r1] eqn:Hpre.
+  destruct (update_pre_keeps _ _ _ _ _ Hpre) as [Htr _].
+  destruct r1 as [[]|e|w]; try (inversion H; subst; now rewrite Htr).
+  rewrite <- Htr. eapply update_leaf_frame; eauto. now rewrite Htr.
+Qed.
+
+Lemma unit_index_meta_noti name now k v :
+  name <> ""%string -> unit_index (meta_noti name now k v) = Ok [md_root; k].
+Proof.
+  intros Hne. unfold unit_index, meta_noti. cbn [n_upd n_atomic n_prefix u_path].
+  unfold join_path, join_prefix_and_path, gp_of_opt, to_strings, gp_of_names. cbn.
+  unfold nonempty. destruct (String.eqb_spec name ""); [contradiction|reflexivity].
+Qed.
+
+Lemma is_meta_cons p0 rest : is_real (p0 :: rest) = negb (String.eqb p0 md_root).
+Proof. reflexivity. Qed.
+
+(** the three loops of generateMetaUpdates only write below "meta" *)
+Definition real_frame (t0 t : target) : Prop :=
+  wf_tree (t_tree t) /\ t_name t = t_name t0 /\
+  forall p0 rest, p0 <> md_root -> lookup (t_tree t) (p0 :: rest) = lookup (t_tree t0) (p0 :: rest).
+
+Lemma real_frame_step t0 t now k val t' r :
+  t_name t0 <> ""%string -> real_frame t0 t ->
+  gnmi_update1 t now (meta_noti (t_name t) now k val) = (t', r) -> real_frame t0 t'.
+Proof.
+  intros Hne (Hwf & Hnm & Hfr) E.
+  destruct (gnmi_update1_good (fun _ => True) t now (meta_noti (t_name t) now k val) t' r)
+    as ([Hwf' _] & [Hid _] & _); auto.
+  { split; [exact Hwf|]. intros ? ? ?; exact I. }
+  split; [exact Hwf'|]. split; [congruence|]. intros p0 rest Hp0.
+  rewrite <- (Hfr p0 rest Hp0).
+  eapply gnmi_update1_frame; [exact Hwf|exact E|apply unit_index_meta_noti; congruence|].
+  intros Heq; inversion Heq; contradiction.
+Qed.
+
+Lemma generate_meta_updates_frame t now :
+  t_name t <> ""%string -> wf_tree (t_tree t) ->
+  real_frame t (fst (fst (generate_meta_updates t now))).
+Proof.
+  intros Hne Hwf. unfold generate_meta_updates. cbv zeta.
+  assert (Hone : forall k v same st, gst_ok (real_frame t) (fun _ => True) st ->
+                   gst_ok (real_frame t) (fun _ => True) (gen_meta_one now k v same st)).
+  { intros k v same st Hst. apply gen_meta_one_inv; [|exact Hst].
+    intros t1 val t' r Hq _ _ E. split; [eapply real_frame_step; eauto|auto]. }
+  match goal with |- real_frame t (fst (fst ?x)) =>
+    assert (H : gst_ok (real_frame t) (fun _ => True) x) end.
+  { repeat (apply fold_gst_ok; [intros; apply Hone; assumption|]).
+    split; [|constructor]. split; [exact Hwf|]. split; reflexivity. }
+  exact (proj1 H).
+Qed.
+
+(** ** root children and the deletes of Reset *)
+
+Lemma lookup_root_child (tr : tree notif) p0 rest v :
+  lookup tr (p0 :: rest) = Some v -> In p0 (root_children tr).
+Proof.
+  destruct tr as [[x|cs]|]; cbn [lookup root_children]; try discriminate.
+  rewrite lookup_branch_cons. destruct (assoc p0 cs) as [c|] eqn:E; [|discriminate].
+  intros _. eapply assoc_Some_key; eauto.
+Qed.
+
+Lemma qmatch_single r p0 rest : qmatch [r] (p0 :: rest) = (is_glob r || String.eqb r p0).
+Proof. cbn. destruct (is_glob r); [reflexivity|]. cbn. now rewrite andb_true_r. Qed.
+
+Lemma fold_delete_lookup roots : forall (tr : tree notif) p0 rest v,
+  wf_tree tr ->
+  lookup (fold_left (fun tr r => fst (CTreeModel.delete tr [r])) roots tr) (p0 :: rest) = Some v ->
+  lookup tr (p0 :: rest) = Some v /\ ~ In p0 roots.
+Proof.
+  induction roots as [|r roots IH]; cbn [fold_left]; intros tr p0 rest v Hwf H; [auto|].
+  unfold CTreeModel.delete in H.
+  destruct (delete_spec tr [r] (fun _ => true) Hwf) as (Hwf' & Hl & _).
+  destruct (IH _ p0 rest v Hwf' H) as [H1 H2].
+  rewrite Hl in H1. unfold sel in H1. destruct (lookup tr (p0 :: rest)) as [w|]; [|discriminate].
+  rewrite qmatch_single, andb_true_r in H1.
+  destruct (is_glob r || String.eqb r p0) eqn:Em; [discriminate|].
+  split; [exact H1|]. intros [->|Hin]; [|contradiction].
+  rewrite String.eqb_refl, orb_true_r in Em. discriminate.
+Qed.
+
+(** Reset, clauses 1 and 2: no leaf outside "meta" remains, and every leaf that
+    was stored outside "meta" is covered by an announced delete of this target
+    ([origin = first index element, path = *], i.e. index path [p0; *]) *)
+Theorem reset_clears_leaves t now t' feed :
+  wf_tree (t_tree t) -> t_name t <> ""%string ->
+  target_reset t now = (t', feed, None) ->
+  (forall p0 rest v, lookup (t_tree t') (p0 :: rest) = Some v -> p0 = md_root) /\
+  (forall p0 rest v, lookup (t_tree t) (p0 :: rest) = Some v -> p0 <> md_root ->
+     In (delete_noti (t_name t) p0 now ["*"]) feed /\
+     qmatch [p0; "*"] (p0 :: rest) = true).
+Proof.
+  intros Hwf Hne. unfold target_reset. cbv zeta.
+  set (t1 := set_meta (set_ts t None) (md_clear (t_meta t))).
+  unfold update_meta.
+  set (t1' := set_lat (set_meta t1 (md_set_int (t_meta t1) md_latest_ts (ts_unixnano (t_ts t1)))) []).
+  pose proof (generate_meta_updates_frame t1' now Hne Hwf) as Hfr.
+  destruct (generate_meta_updates t1' now) as [[t2 fd] po]. cbn [fst] in Hfr.
+  destruct Hfr as (Hwf2 & Hnm2 & Hfr).
+  destruct po; [discriminate|]. intros H; inversion H; subst. cbn [t_tree set_tree]. split.
+  - intros p0 rest v Hl. destruct (fold_delete_lookup _ _ _ _ _ Hwf2 Hl) as [H1 H2].
+    destruct (String.eqb_spec p0 md_root) as [|Hn]; [assumption|]. exfalso. apply H2.
+    apply filter_In. split; [eapply lookup_root_child; eauto|].
+    destruct (String.eqb_spec p0 md_root); [contradiction|reflexivity].
+  - intros p0 rest v Hl Hp0. split.
+    + apply in_or_app. right. apply in_map_iff. exists p0. split; [now rewrite Hnm2|].
+      apply filter_In. split.
+      * eapply lookup_root_child. rewrite (Hfr p0 rest Hp0). exact Hl.
+      * destruct (String.eqb_spec p0 md_root); [contradiction|reflexivity].
+    + cbn. destruct (is_glob p0); [destruct rest; reflexivity|].
+      rewrite String.eqb_refl. cbn. destruct rest; reflexivity.
+Qed.
+
+(** ** Reset, clause 3: the metadata *)
+
+Definition meq (m m' : metadata) : Prop :=
+  (forall k, md_get_int m k = md_get_int m' k) /\
+  (forall k, md_get_bool m k = md_get_bool m' k) /\
+  (forall k, md_get_str m k = md_get_str m' k).
+
+Lemma meq_refl m : meq m m.
+Proof. repeat split. Qed.
+
+Lemma meq_trans a b c : meq a b -> meq b c -> meq a c.
+Proof.
+  intros (A1 & A2 & A3) (B1 & B2 & B3). repeat split; intros k; congruence.
+Qed.
+
+Lemma meq_set_bool_same m k b : md_get_bool m k = Some b -> meq (md_set_bool m k b) m.
+Proof.
+  intros H. unfold md_get_bool in H. unfold md_set_bool.
+  destruct (name_in k md_bool_names) eqn:Ek; [|discriminate].
+  repeat split; intros k'; unfold md_get_bool; cbn [m_int m_bool m_str]; try reflexivity.
+  destruct (name_in k' md_bool_names); [|reflexivity]. rewrite assoc_aset.
+  destruct (String.eqb_spec k' k) as [->|]; [now rewrite H|reflexivity].
+Qed.
+
+Lemma meq_set_str_same m k s : md_get_str m k = Some s -> meq (md_set_str m k s) m.
+Proof.
+  intros H. unfold md_get_str in H. unfold md_set_str.
+  destruct (name_in k md_str_names) eqn:Ek; [|discriminate].
+  repeat split; intros k'; unfold md_get_str; cbn [m_int m_bool m_str]; try reflexivity.
+  destruct (name_in k' md_str_names); [|reflexivity]. rewrite assoc_aset.
+  destruct (String.eqb_spec k' k) as [->|]; [now rewrite H|reflexivity].
+Qed.
+
+(** the value a refresh writes for [k] is the one the metadata holds *)
+Definition val_current (m : metadata) (k : string) (val : tv) : Prop :=
+  match val with
+  | TBool b => md_get_bool m k = Some b
+  | TInt z => md_get_int m k = Some z
+  | TStr s => md_get_str m k = Some s
+  | _ => False
+  end.
+
+Lemma meta_side_effect_same t k two val t1 r :
+  val_current (t_meta t) k val ->
+  meta_side_effect t k two (Upd (Some (gp_of_names [md_root; k])) (Some val) 0) = (t1, r) ->
+  meq (t_meta t1) (t_meta t) /\ t_ts t1 = t_ts t /\ t_sync t1 = t_sync t \/
+  meq (t_meta t1) (t_meta t) /\ t_ts t1 = t_ts t /\ k = md_sync.
+Proof.
+  intros Hv. unfold meta_side_effect. cbn [u_val].
+  repeat break_match; intros H; inversion H; subst; cbn [t_meta t_ts t_sync set_meta set_sync];
+    try (left; split; [apply meq_refl|split; reflexivity]).
+  - right. apply String.eqb_eq in Heqb. subst k. cbn in Hv.
+    split; [now apply meq_set_bool_same|split; reflexivity].
+  - left. apply String.eqb_eq in Heqb0. subst k. cbn in Hv.
+    split; [now apply meq_set_bool_same|split; reflexivity].
+  - left. cbn in Hv. split; [now apply meq_set_str_same|split; reflexivity].
+Qed.
+
+Lemma future_rejected_now t now : future_rejected t now now = false.
+Proof.
+  unfold future_rejected. cbv zeta. rewrite Z.sub_diag.
+  destruct (Z.ltb_spec 0 (cfg_future_threshold (t_cfg t))); [|reflexivity].
+  destruct (Z.ltb_spec (cfg_future_threshold (t_cfg t)) 0); [lia|reflexivity].
+Qed.
+
+Lemma get_leaf_lookup' (tr : tree notif) p v :
+  CTreeModel.get tr p = Some (Leaf v) -> lookup tr p = Some v.
+Proof.
+  destruct tr as [n|]; cbn [CTreeModel.get lookup]; [|discriminate].
+  unfold lookup_node. now intros ->.
+Qed.
+
+(** the stored leaf, if any, is not newer than the clock and holds another value *)
+Definition leaf_fresh (t : target) (now : Z) (k : string) (val : tv) : Prop :=
+  forall old, lookup (t_tree t) [md_root; k] = Some old ->
+    n_ts old <= now /\
+    exists uo rest, n_upd old = uo :: rest /\
+      otv_eqb (u_val uo) (Some val) = false /\ value_equal (u_val uo) (Some val) = false.
+
+Lemma update_leaf_meta t1 now k val t2 r :
+  let u := Upd (Some (gp_of_names [md_root; k])) (Some val) 0 in
+  leaf_fresh t1 now k val ->
+  update_leaf t1 now [md_root; k] u (meta_noti (t_name t1) now k val) = (t2, r) ->
+  t_meta t2 = t_meta t1 /\ t_ts t2 = t_ts t1 /\ t_sync t2 = t_sync t1.
+Proof.
+  intros u Hfresh. unfold update_leaf. cbv zeta.
+  assert (Hreal : is_real [md_root; k] = false) by reflexivity. rewrite Hreal.
+  destruct (CTreeModel.get (t_tree t1) [md_root; k]) as [[old|cs]|] eqn:Hg.
+  - destruct (Hfresh old (get_leaf_lookup' _ _ _ Hg)) as (Hts & uo & rest & Hu & Ho & Hv).
+    assert (Hverd : leaf_verdict t1 now old (meta_noti (t_name t1) now k val) = None).
+    { unfold leaf_verdict. cbn [n_ts meta_noti].
+      destruct (Z.ltb_spec now (n_ts old)); [lia|].
+      assert (Hne : notif_eqb old (meta_noti (t_name t1) now k val) = false).
+      { unfold notif_eqb. cbn [n_upd meta_noti]. rewrite Hu. cbn [list_eqb]. unfold update_eqb.
+        cbn [u_val]. rewrite Ho. now rewrite ?andb_false_r. }
+      rewrite Hne, andb_false_r. rewrite future_rejected_now, andb_false_r. reflexivity. }
+    rewrite Hverd. cbn [n_atomic meta_noti]. rewrite Hu. cbn [u_val].
+    fold u. cbn [u_val u]. rewrite Hv. rewrite andb_false_r. cbn [andb].
+    unfold lat_compute. rewrite andb_false_r.
+    intros H; inversion H; subst. repeat split.
+  - intros H; inversion H; subst. repeat split.
+  - destruct (CTreeModel.add (t_tree t1) [md_root; k] (meta_noti (t_name t1) now k val));
+      intros H; inversion H; subst; repeat split.
+Qed.
+
+Lemma meta_step_meq t now k val t' r :
+  t_name t <> ""%string ->
+  val_current (t_meta t) k val -> leaf_fresh t now k val ->
+  gnmi_update1 t now (meta_noti (t_name t) now k val) = (t', r) ->
+  meq (t_meta t') (t_meta t) /\ t_ts t' = t_ts t.
+Proof.
+  intros Hne Hv Hfresh. unfold gnmi_update1.
+  rewrite (unit_index_meta_noti (t_name t) now k val Hne).
+  cbn [n_upd meta_noti]. unfold update_pre.
+  assert (Hm : negb (String.eqb md_root md_root) = false) by reflexivity. rewrite Hm.
+  destruct (meta_side_effect t k true (Upd (Some (gp_of_names [md_root; k])) (Some val) 0))
+    as [t1 r1] eqn:Hs.
+  destruct (meta_side_effect_keeps _ _ _ _ _ _ Hs) as [Htr [Hnm _]].
+  assert (Hq : meq (t_meta t1) (t_meta t) /\ t_ts t1 = t_ts t).
+  { destruct (meta_side_effect_same _ _ _ _ _ _ Hv Hs) as [(A & B & _)|(A & B & _)]; auto. }
+  destruct Hq as [Hq Hts].
+  destruct r1 as [[]|e|w]; try (intros H; inversion H; subst; auto).
+  assert (Hfresh1 : leaf_fresh t1 now k val).
+  { intros old Hl. apply Hfresh. now rewrite <- Htr. }
+  change (Notif now (Some (GPath (t_name t) "" [] [])) None
+            [Upd (Some (gp_of_names [md_root; k])) (Some val) 0] [] false)
+    with (meta_noti (t_name t) now k val) in H.
+  rewrite <- Hnm in H.
+  destruct (update_leaf_meta t1 now k val t' r Hfresh1 H) as (A & B & _).
+  rewrite A, B. auto.
+Qed.
+
+(** getters of freshly cleared metadata, whatever was there before *)
+Definition reset_counters : list string :=
+  [md_add_count; md_del_count; md_empty_count; md_leaf_count; md_update_count;
+   md_stale_count; md_future_count; md_suppressed_count; md_size].
+
+Lemma md_clear_getters m z :
+  let m' := md_set_int (md_clear m) md_latest_ts z in
+  md_get_bool m' md_sync = Some false /\
+  md_get_bool m' md_connected = Some false /\
+  Forall (fun k => md_get_int m' k = Some 0) reset_counters /\
+  md_get_int m' md_latest_ts = Some z /\
+  md_get_str m' md_connected_addr = Some ""%string.
+Proof.
+  cbv zeta. unfold md_clear, md_set_int, md_get_bool, md_get_int, md_get_str, reset_counters.
+  cbn [fold_left app md_bool_names md_int_names md_str_names].
+  unfold md_reset_entry, md_set_bool, md_set_int, md_set_str.
+  cbn -[assoc aset adel]. 
+  repeat split; repeat constructor; repeat (rewrite assoc_aset; cbn -[assoc aset adel]); reflexivity.
+Qed.
+
+(** value at the index path of a gnmiUpdate afterwards: what was there, or the
+    new notification *)
+Lemma update_leaf_at t1 now p u n t2 r :
+  wf_tree (t_tree t1) -> update_leaf t1 now p u n = (t2, r) ->
+  lookup (t_tree t2) p = lookup (t_tree t1) p \/ lookup (t_tree t2) p = Some n.
+Proof.
+  intros Hwf. unfold update_leaf.
+  assert (Hset : lookup (tree_set (t_tree t1) p n) p = lookup (t_tree t1) p \/
+                 lookup (tree_set (t_tree t1) p n) p = Some n).
+  { unfold tree_set. destruct (CTreeModel.add (t_tree t1) p n) as [tr'|] eqn:Ha; [|now left].
+    right. destruct (add_spec _ _ _ _ Hwf Ha) as [_ Hl]. rewrite Hl. now rewrite path_eqb_refl. }
+  repeat break_match; intros H; inversion H; subst;
+    rewrite ?lat_compute_tree; cbn [t_tree set_tree add_int set_meta];
+    first [ now left | exact Hset
+          | right; match goal with Ha : CTreeModel.add _ _ _ = Some _ |- _ =>
+              destruct (add_spec _ _ _ _ Hwf Ha) as [_ Hl]; rewrite Hl; now rewrite path_eqb_refl end ].
+Qed.
+
+Lemma gnmi_update1_at t now n t' r p :
+  wf_tree (t_tree t) -> gnmi_update1 t now n = (t', r) -> unit_index n = Ok p ->
+  lookup (t_tree t') p = lookup (t_tree t) p \/ lookup (t_tree t') p = Some n.
+Proof.
+  intros Hwf. unfold gnmi_update1. destruct (n_upd n) as [|u ?].
+  { intros H; inversion H; now left. }
+  intros H Hp. rewrite Hp in H.
+  destruct (update_pre t p u) as [t1 r1] eqn:Hpre.
+  destruct (update_pre_keeps _ _ _ _ _ Hpre) as [Htr _].
+  destruct r1 as [[]|e|w]; try (inversion H; subst; left; now rewrite Htr).
+  rewrite <- Htr. eapply update_leaf_at; eauto. now rewrite Htr.
+Qed.
+
+(** no stored metadata leaf is newer than the clock *)
+Definition calm (now : Z) (t : target) : Prop :=
+  forall k old, lookup (t_tree t) [md_root; k] = Some old -> n_ts old <= now.
+
+Definition refresh_inv (name : string) (m0 : metadata) (ts0 : option Z) (now : Z) (t : target) : Prop :=
+  t_name t = name /\ wf_tree (t_tree t) /\ meq (t_meta t) m0 /\ t_ts t = ts0 /\ calm now t.
+
+Lemma refresh_step name m0 ts0 now t k val t' r :
+  name <> ""%string -> refresh_inv name m0 ts0 now t ->
+  val_current (t_meta t) k val -> leaf_fresh t now k val ->
+  gnmi_update1 t now (meta_noti (t_name t) now k val) = (t', r) ->
+  refresh_inv name m0 ts0 now t'.
+Proof.
+  intros Hne (Hnm & Hwf & Hm & Hts & Hcalm) Hv Hfresh E.
+  assert (Hne' : t_name t <> ""%string) by congruence.
+  destruct (meta_step_meq t now k val t' r Hne' Hv Hfresh E) as [Hm' Hts'].
+  destruct (gnmi_update1_good (fun _ => True) t now (meta_noti (t_name t) now k val) t' r)
+    as ([Hwf' _] & [Hid _] & _); auto.
+  { split; [exact Hwf|]. intros ? ? ?; exact I. }
+  split; [congruence|]. split; [exact Hwf'|]. split; [eapply meq_trans; eauto|]. split; [congruence|].
+  intros k' old Hl. destruct (String.eqb_spec k' k) as [->|Hk].
+  - destruct (gnmi_update1_at t now _ t' r [md_root; k] Hwf E (unit_index_meta_noti _ _ _ _ Hne')) as [Hs|Hs].
+    + rewrite Hs in Hl. eapply Hcalm; eauto.
+    + rewrite Hs in Hl. inversion Hl; subst. cbn. lia.
+  - rewrite (gnmi_update1_frame t now _ t' r [md_root; k] [md_root; k'] Hwf E
+               (unit_index_meta_noti _ _ _ _ Hne')) in Hl.
+    + eapply Hcalm; eauto.
+    + intros Heq; inversion Heq; contradiction.
+Qed.
+
+(** meta_differs = Ok true: the stored leaf holds a value [same] rejects *)
+Lemma meta_differs_true t k same :
+  meta_differs t k same = Ok true ->
+  forall old, lookup (t_tree t) [md_root; k] = Some old ->
+    exists uo rest v, n_upd old = uo :: rest /\ u_val uo = Some v /\ same v = Some false.
+Proof.
+  unfold meta_differs. intros H old Hl. rewrite Hl in H.
+  destruct (n_upd old) as [|uo rest]; [discriminate|].
+  destruct (u_val uo) as [v|]; [|discriminate].
+  destruct (same v) as [[|]|]; try discriminate. exists uo, rest, v. auto.
+Qed.
+
+Lemma refresh_loops name m0 ts0 now t :
+  name <> ""%string -> refresh_inv name m0 ts0 now t ->
+  refresh_inv name m0 ts0 now (fst (fst (generate_meta_updates t now))).
+Proof.
+  intros Hne Hinv. unfold generate_meta_updates. cbv zeta.
+  set (Q := refresh_inv name m0 ts0 now).
+  match goal with |- Q (fst (fst ?x)) => assert (H : gst_ok Q (fun _ => True) x) end; [|exact (proj1 H)].
+  apply fold_gst_ok.
+  { intros st k _ Hst. apply gen_meta_one_inv; [|exact Hst].
+    intros t0 val t' r Hq Hv Hd E. destruct st as [[t1 fd] po]. cbn [fst] in *.
+    split; [|auto]. subst Q. eapply refresh_step; eauto.
+    - destruct (md_get_str (t_meta t1) k) as [s|] eqn:Eg; [|discriminate].
+      inversion Hv; subst. exact Eg.
+    - intros old Hl. split; [destruct Hq as (_ & _ & _ & _ & Hc); eapply Hc; eauto|].
+      destruct (meta_differs_true _ _ _ Hd old Hl) as (uo & rest & v & Hu & Hvv & Hs).
+      exists uo, rest. split; [exact Hu|]. rewrite Hvv.
+      destruct (md_get_str (t_meta t1) k) as [s|] eqn:Eg; [|discriminate]. inversion Hv; subst.
+      destruct v; try discriminate. cbn in Hs. inversion Hs as [Hs']. cbn. rewrite Hs'. auto. }
+  apply fold_gst_ok.
+  { intros st k _ Hst. apply gen_meta_one_inv; [|exact Hst].
+    intros t0 val t' r Hq Hv Hd E. destruct st as [[t1 fd] po]. cbn [fst] in *.
+    split; [|auto]. subst Q. eapply refresh_step; eauto.
+    - destruct (md_get_int (t_meta t1) k) as [z|] eqn:Eg; [|discriminate].
+      inversion Hv; subst. exact Eg.
+    - intros old Hl. split; [destruct Hq as (_ & _ & _ & _ & Hc); eapply Hc; eauto|].
+      destruct (meta_differs_true _ _ _ Hd old Hl) as (uo & rest & v & Hu & Hvv & Hs).
+      exists uo, rest. split; [exact Hu|]. rewrite Hvv.
+      destruct (md_get_int (t_meta t1) k) as [z|] eqn:Eg; [|discriminate]. inversion Hv; subst.
+      destruct v; try discriminate. cbn in Hs. inversion Hs as [Hs']. cbn. rewrite Hs'. auto. }
+  apply fold_gst_ok.
+  { intros st k _ Hst. apply gen_meta_one_inv; [|exact Hst].
+    intros t0 val t' r Hq Hv Hd E. destruct st as [[t1 fd] po]. cbn [fst] in *.
+    split; [|auto]. subst Q. eapply refresh_step; eauto.
+    - destruct (md_get_bool (t_meta t1) k) as [b|] eqn:Eg; [|discriminate].
+      inversion Hv; subst. exact Eg.
+    - intros old Hl. split; [destruct Hq as (_ & _ & _ & _ & Hc); eapply Hc; eauto|].
+      destruct (meta_differs_true _ _ _ Hd old Hl) as (uo & rest & v & Hu & Hvv & Hs).
+      exists uo, rest. split; [exact Hu|]. rewrite Hvv.
+      destruct (md_get_bool (t_meta t1) k) as [b|] eqn:Eg; [|discriminate]. inversion Hv; subst.
+      destruct v; try discriminate. cbn in Hs. inversion Hs as [Hs']. cbn. rewrite Hs'. auto. }
+  split; [exact Hinv|constructor].
+Qed.
+
+(** Reset, clause 3: when no stored metadata leaf is newer than the clock, the
+    metadata after Reset is the initial one -- not synced, not connected,
+    every counter and the size 0, connected address empty, latest timestamp
+    cleared -- except for the exported latestTimestamp, which is
+    [time.Time{}.UnixNano()].
+    (* DEFECT C14_1 *) with fixes/C14_1_zero_time_latest.diff the exported
+    value is 0: [zero_time_unixnano] below becomes [0] (the model constant
+    [CacheModel.ts_unixnano None]). *)
+Theorem reset_clears_meta t now t' feed :
+  wf_tree (t_tree t) -> t_name t <> ""%string -> calm now t ->
+  target_reset t now = (t', feed, None) ->
+  md_get_bool (t_meta t') md_sync = Some false /\
+  md_get_bool (t_meta t') md_connected = Some false /\
+  Forall (fun k => md_get_int (t_meta t') k = Some 0) reset_counters /\
+  md_get_int (t_meta t') md_latest_ts = Some (ts_unixnano None) /\
+  md_get_str (t_meta t') md_connected_addr = Some ""%string /\
+  t_ts t' = None.
+Proof.
+  intros Hwf Hne Hcalm. unfold target_reset. cbv zeta.
+  set (t1 := set_meta (set_ts t None) (md_clear (t_meta t))).
+  unfold update_meta.
+  set (t1' := set_lat (set_meta t1 (md_set_int (t_meta t1) md_latest_ts (ts_unixnano (t_ts t1)))) []).
+  assert (Hinv : refresh_inv (t_name t) (t_meta t1') None now t1').
+  { split; [reflexivity|]. split; [exact Hwf|]. split; [apply meq_refl|]. split; [reflexivity|exact Hcalm]. }
+  pose proof (refresh_loops (t_name t) _ _ now t1' Hne Hinv) as Hr.
+  destruct (generate_meta_updates t1' now) as [[t2 fd] po]. cbn [fst] in Hr.
+  destruct po; [discriminate|]. intros H; inversion H; subst. cbn [t_meta t_ts set_tree].
+  destruct Hr as (_ & _ & (Mi & Mb & Ms) & Hts & _).
+  destruct (md_clear_getters (t_meta t) (ts_unixnano None)) as (G1 & G2 & G3 & G4 & G5).
+  subst t1' t1. cbn [t_meta t_ts set_meta set_ts set_lat] in *.
+  rewrite !Mb, !Mi, !Ms. repeat split; try assumption.
+  eapply Forall_impl; [|exact G3]. cbn. intros k Hk. now rewrite Mi.
+Qed.
+
+(** * Reachable states: the hypotheses of the Reset theorems hold there *)
+
+Lemma reachable_target cfg names ops name t :
+  assoc name (c_targets (crun (new_cache cfg names) ops)) = Some t ->
+  wf_tree (t_tree t) /\ t_name t = name /\
+  (forall p v, lookup (t_tree t) p = Some v -> ntgt v = name).
+Proof.
+  intros Ha. pose proof (reachable_cinv cfg names ops) as Hc.
+  rewrite mrun_crun in Hc. cbn [minit ms_cache] in Hc.
+  destruct (proj2 Hc name t Ha) as [[Hwf Hall] Hnm]. auto.
+Qed.
+
+(** executable form of [calm] *)
+Definition calm_b (now : Z) (t : target) : bool :=
+  forallb (fun pv => match fst pv with
+                     | [p0; _] => negb (String.eqb p0 md_root) || Z.leb (n_ts (snd pv)) now
+                     | _ => true
+                     end) (walk (t_tree t)).
+
+Lemma calm_b_sound now t : wf_tree (t_tree t) -> calm_b now t = true -> calm now t.
+Proof.
+  intros Hwf Hb k old Hl. apply (walk_exact (t_tree t) _ _ Hwf) in Hl.
+  unfold calm_b in Hb. rewrite forallb_forall in Hb. specialize (Hb _ Hl). cbn in Hb. lia.
+Qed.
+
+(** * Examples (the hypotheses of the theorems are satisfiable) *)
+
+Definition ex_cfg : config := Cfg 0 true [].
+Definition ex_upd (tgt leaf : string) (ts v : Z) : notif :=
+  Notif ts (Some (gp_prefix tgt "" ["a"])) None [Upd (Some (gp_of_names [leaf])) (Some (TInt v)) 0] [] false.
+Definition ex_ops : list mop :=
+  [MUpd 1 (ex_upd "t" "b" 5 1); MUpd 1 (ex_upd "u" "b" 5 1); MUpd 2 (ex_upd "t" "c" 6 2);
+   MSync 2 "t"; MConnectError 3 "t" "boom"; MUpdateMeta 3].
+Definition ex_c : cache := crun (new_cache ex_cfg ["t"; "u"]) ex_ops.
+
+Example ex_cinv : cinv ex_c.
+Proof. pose proof (reachable_cinv ex_cfg ["t"; "u"] ex_ops) as H. now rewrite mrun_crun in H. Qed.
+
+Example ex_isolation_hyps :
+  Forall (spares "u") [MReset 4 "t"; MUpd 5 (ex_upd "t" "b" 7 3); MRemove 6 "t"; MAdd "t"] /\
+  exists tu, assoc "u" (c_targets ex_c) = Some tu /\ lookup (t_tree tu) ["a"; "b"] <> None.
+Proof.
+  split.
+  - repeat constructor; cbn; discriminate.
+  - vm_compute. eexists. split; [reflexivity|discriminate].
+Qed.
+
+Example ex_reset_hyps :
+  exists t t' feed,
+    assoc "t" (c_targets ex_c) = Some t /\
+    wf_tree (t_tree t) /\ t_name t <> ""%string /\ calm 4 t /\
+    target_reset t 4 = (t', feed, None) /\
+    lookup (t_tree t) ["a"; "b"] <> None /\ lookup (t_tree t) ["a"; "c"] <> None /\
+    md_get_bool (t_meta t) md_sync = Some true /\ md_get_int (t_meta t) md_leaf_count = Some 2.
+Proof.
+  destruct (assoc "t" (c_targets ex_c)) as [t|] eqn:Ha; [|vm_compute in Ha; discriminate].
+  destruct (reachable_target ex_cfg ["t"; "u"] ex_ops "t" t Ha) as (Hwf & Hnm & _).
+  assert (Et : Some t = assoc "t" (c_targets ex_c)) by (symmetry; exact Ha).
+  vm_compute in Et. inversion Et as [Ht]. clear Et.
+  destruct (target_reset t 4) as [[t' feed] po] eqn:Er.
+  exists t, t', feed. split; [reflexivity|]. split; [exact Hwf|].
+  split; [rewrite Hnm; discriminate|].
+  split; [apply calm_b_sound; [exact Hwf|rewrite Ht; vm_compute; reflexivity]|].
+  assert (Hpo : po = None).
+  { assert (E2 : snd (target_reset t 4) = po) by now rewrite Er.
+    rewrite <- E2. rewrite Ht. vm_compute. reflexivity. }
+  subst po. split; [reflexivity|].
+  rewrite Ht. vm_compute. repeat split; discriminate.
+Qed.
+
+Example ex_remove_hyps : cinv ex_c /\ "t"%string <> "*"%string /\ cache_has_target ex_c "t" = true.
+Proof. split; [exact ex_cinv|]. split; [discriminate|vm_compute; reflexivity]. Qed.
